@@ -430,6 +430,12 @@ func (option *Option) isValueValidator() ValueValidator {
 			break
 		}
 
+		// A validator with a value receiver cannot be called through a
+		// nil pointer: ask a fresh value instead
+		if v.Kind() == reflect.Ptr && v.IsNil() {
+			v = reflect.New(v.Type().Elem())
+		}
+
 		i := v.Interface()
 
 		if u, ok := i.(ValueValidator); ok {
